@@ -187,6 +187,8 @@ def generate(seed, tier='quick'):
     style = r.choice([0, 0, 1])
     eol = r.choice(['\n', '\n', '\n', '\r\n'])
     final_newline = r.random() < 0.75
+    numfmt = r.choice(['plain', 'plain', 'padded'])
+    paths = r.choice(['abs', 'abs', 'abs', 'rel'])
     weights = {op: r.choice([0, 1, 1, 2, 4]) for op in OPS}
     weights['append_rows'] = max(weights['append_rows'], 1)
     nsteps = r.randint(3, 14)
@@ -247,6 +249,8 @@ def generate(seed, tier='quick'):
                 steps.append({'op': 'ext_create', 'name': 'x%d.par' % nx,
                               'content': r.choice(['garbage', 'yanny', 'empty', 'dir'])})
                 steps.append({'op': 'write_copy', 'name': 'x%d.par' % nx, 'comments': r.choice(COMMENTS)})
+                if steps[-2]['content'] != 'dir' and r.random() < 0.25:
+                    steps[-1]['spell'] = 'tilde'
                 nx += 1
             elif u < 0.85 and nf > 1:
                 steps.append({'op': 'write_copy', 'name': r.choice(names)})
@@ -290,5 +294,5 @@ def generate(seed, tier='quick'):
             nx += 1
     return {'property': 'C03', 'seed': seed, 'clock': clock, 'tables': tables, 'hdr': hdr,
             'start': start, 'comments': comments0, 'style': style, 'eol': eol,
-            'final_newline': final_newline, 'steps': steps[:(96 if tier == 'thorough' else 48) if long_history else 16],
+            'final_newline': final_newline, 'numfmt': numfmt, 'paths': paths, 'steps': steps[:(96 if tier == 'thorough' else 48) if long_history else 16],
             'weights': weights}
